@@ -234,7 +234,8 @@ impl Decl {
 
 const WORDS: [&str; 10] = ["Get", "Set", "Led", "Adc", "Run", "Stop", "Item", "Mode", "Pin", "Log"];
 const FIELD_NAMES: [&str; 12] = ["alpha", "beta", "gamma", "delta", "eps", "zeta", "eta", "theta", "iota_x", "kappa_y", "lam", "mu_nu_xi"];
-const NAME_SYL: [&str; 14] = ["a", "b", "c", "d", "g", "s", "t", "é", "ж", "go", "st", "€", "Up", "x_y"];
+// several syllables share their leading octets (é/ê, €/₭, 向/吐, 𐍈/𐍉): names then diverge inside a character
+const NAME_SYL: [&str; 20] = ["a", "b", "c", "d", "g", "s", "t", "é", "ж", "go", "st", "€", "Up", "x_y", "ê", "₭", "向", "吐", "𐍈", "𐍉"];
 
 fn kebab_of_camel(id: &str) -> String {
     let mut s = String::new();
